@@ -28,6 +28,17 @@ MUTANTS = [
      "aldy.solutions.SolvedAllele.mutations", "frame/p:self"),
     ("aldy/coverage.py", "        return sz >= min_cov", "        return sz > min_cov", "aldy.coverage.Coverage.basic_filter", "post"),
     ("aldy/lpinterface.py", '            self.addConstr(res <= v, name="PROD")', "            pass", "aldy.lpinterface.Gurobi.prod", "PROD"),
+    ("aldy/minor.py", '            model.addConstr(expr >= 1, name=f"CMINONE_{m.pos}_{m.op}")', '            model.addConstr(expr >= 0, name=f"CMINONE_{m.pos}_{m.op}")',
+     "aldy.minor.solve_minor_model@rule-5", "family/CMINONE"),
+    ("aldy/minor.py", "            if len(ma) + len(mp) > 1:", "            if len(ma) + len(mp) > 2:", "aldy.minor.solve_minor_model@rule-4", "family/CSINGLEFULL"),
+    ("aldy/minor.py", "            if gene.has_coverage(a[0].major, m.pos) and m not in alleles[a]\n", "            if m not in alleles[a]\n",
+     "aldy.minor.solve_minor_model@addable", "addable-iff-copies-and-not-defined"),
+    ("aldy/genotype.py", "        if avg_cov < profile.min_avg_coverage:", "        if profile.cn_region and avg_cov < profile.min_avg_coverage:",
+     "aldy.genotype.genotype@depth-guard", "low-depth"),
+    ("aldy/genotype.py", "            if m.score - min_minor_score - profile.gap < SOLUTION_PRECISION", "            if m.score - min_minor_score - profile.gap <= SOLUTION_PRECISION",
+     "aldy.genotype.genotype@final-selection", "within-gap"),
+    ("aldy/gene.py", "            for i in range(rng.start, rng.end)\n", "            for i in range(rng.start, rng.end + 1)\n",
+     "aldy.gene.Gene._init_regions@region-index", "indexed-iff-inside-a-region"),
     ("aldy/coverage.py", "            if q >= self.profile.min_quality", "            if q > self.profile.min_quality", "aldy.coverage.Coverage.quality_filter", "post"),
 ]
 SLOW = [
